@@ -103,7 +103,7 @@ def record_expand(root, desc):
         x.add_attribute("probe", "1")
         x.add_extras("probe", "1")
         x.add_namespace("pr", "urn:probe")
-        x.remove_children()
+        x.add_child(Node("probeChild"))          # a copy that shares a child LIST with its source shows up here
     probe = w.pi(ALLF)
     return {"op": "expand", "pre": pre, "post": post, "probe": probe, "root": 1, "raised": raised, "precondition": True,
             "validBefore": valid_before, "validAfter": valid_after, "desc": desc}
